@@ -116,6 +116,15 @@ func vfRunScen(c vfScenCase) *vfScenOut {
 		o.err = "ParseConfig: " + err.Error()
 		return o
 	}
+	// the recording window is judged against the wall clock: whatever clock the parsed configuration carries for
+	// it must read the time of day as it is
+	if wnow := parsed.Recorder.Window.Now; wnow != nil {
+		if d := wnow().Sub(time.Now()); d > 2*time.Second || d < -2*time.Second {
+			conn.Close()
+			o.err = fmt.Sprintf("the recording window's clock (set while the configuration was parsed) reads %v, the wall clock %v: the window would be judged %v off", wnow().Format("15:04:05.000"), time.Now().Format("15:04:05.000"), d)
+			return o
+		}
+	}
 	logSet(lb)
 	defer logSet(discard{})
 	testAt := map[int]bool{}
